@@ -4,16 +4,19 @@
    `clone_el ren inh e` mirrors TagNode.clone / _ElementWrappingNode.clone (Conc/Clone.v); `ren` names the new objects
    and is arbitrary; `content` (Tree/ITree.v) forgets identities: name, namespace, presented attributes, children
    including comments and PIs, text.  A clone is a parentless node by construction (`LEl` / `LText` carry no tail).
-   Missing: `C10_independent` as a theorem over later histories (a frame lemma of astep: an operation whose target and
-   offered nodes lie in one tree leaves every other tree of the world unchanged, then C01_history).  What is proved
-   here is the first half -- cloning itself changes nothing that exists -- and the later histories are checked on the
-   implementation by harness/props/c10.py (after every later call on one side the other side's view is compared).
+   Independence over later histories: `C10_independent` -- after a history of any length (under the C01 guard), every
+   tree of the world that no primitive update of those calls names (`hist_avoids`, decidable, computed along the run)
+   is presented exactly as before; this holds for the clone while the original is edited and for every tree that
+   existed before while the clone is edited.  Missing: that the updates of a call name only nodes of the trees the
+   call's arguments lie in (a per-script lemma needing unique identities) -- until then `hist_avoids` stands as a
+   hypothesis; harness/props/c10.py checks the unguarded statement on the implementation.
    Guard inherited from C01 (finding 13b): a node whose namespaced attribute equals the default namespace in scope
    cannot be cloned (KeyError when reading the attribute). *)
 From Coq Require Import List NArith Bool.
 From Delb.Base Require Import PyStr.
 From Delb.Tree Require Import ATree ITree AOps.
-From Delb.Conc Require Import CTree COps CGuard Clone CloneFacts.
+From Delb.Tree Require Import AGuard AOpsFacts.
+From Delb.Conc Require Import CTree COps CGuard Clone CloneFacts Witness.
 Import ListNotations.
 
 (* deep clone of an element-like node: as a client sees it, the original subtree with new identities ... *)
@@ -42,6 +45,27 @@ Theorem C10_clone_frame : forall w x deep ren,
 Proof. exact clone_step_frame. Qed.
 Print Assumptions C10_clone_frame.
 
+(* later histories: a tree none of whose nodes is named by an update of the later calls stays as it is *)
+Theorem C10_independent : forall C c ops,
+  shape_ok c = true -> hist_ok c ops = true -> hist_avoids (comp_root C) (abs_world c) ops = true ->
+  comp_in C (abs_world c) -> comp_in C (abs_world (fst (crun c ops))).
+Proof. exact later_history_frame. Qed.
+Print Assumptions C10_independent.
+(* ... in particular the clone just made, and every tree that existed before it *)
+Theorem C10_independent_clone : forall w x deep ren l ops,
+  shape_ok (cadd_loose l w) = true -> c_clone w x deep ren = Some l ->
+  let c := c_clone_step w x deep ren in
+  hist_ok c ops = true ->
+  (hist_avoids (abs_loose l) (abs_world c) ops = true -> In (abs_loose l) (loose (abs_world (fst (crun c ops))))) /\
+  (forall C, comp_in C (abs_world w) -> hist_avoids (comp_root C) (abs_world c) ops = true ->
+             comp_in C (abs_world (fst (crun c ops)))).
+Proof. exact clone_then_history. Qed.
+Print Assumptions C10_independent_clone.
+(* the frame property of the plain-tree edits it rests on *)
+Theorem C10_frame : forall C u w, avoids (comp_root C) u = true -> comp_in C w -> comp_in C (apply_a u w).
+Proof. exact apply_a_frame. Qed.
+Print Assumptions C10_frame.
+
 (* the clone is a well-shaped tree, so the theorems of C01 apply to every later history on it *)
 Theorem C10_clone_shape : forall ren e inh, el_ok e = true -> el_ok (clone_el ren inh e) = true.
 Proof. exact clone_ok. Qed.
@@ -54,6 +78,15 @@ Theorem C10_document : forall ren d,
   map content pro = map content pro0 /\ content r = content r0 /\ map content epi = map content epi0.
 Proof. exact clone_doc_spec. Qed.
 Print Assumptions C10_document.
+
+Example C10_example_independent :
+  exists l, c_clone w_big 9%N true ren9 = Some l /\
+            let c := c_clone_step w_big 9%N true ren9 in
+            cwf c /\ hist_ok c after_clone = true /\ hist_ok c on_original = true /\
+            hist_avoids (abs_top (d_root (hd {| d_pro := []; d_root := CEl 0%N (KComment []) None no_chain []; d_epi := [] |} (w_docs w_big))))
+                        (abs_world c) after_clone = true /\
+            hist_avoids (abs_loose l) (abs_world c) on_original = true.
+Proof. exact clone_example. Qed.
 
 Example C10_example :
   let e := CEl 0%N (KTag [100%N] [114%N] [([], [107%N], [118%N])]) (Some [100%N])
